@@ -150,10 +150,11 @@ CLAIMS = {
         "1500 synthetic load profiles x utility ladders per run, all duties compared): duties_nonneg_and_bounded (for every "
         "segment, ladder and side the duties are >= 0 and never sum to more than the profile maximum, by induction over the "
         "ladder), unreachable_gets_zero (a utility whose supply lies beyond every row of its segment gets nothing), "
-        "covering_ladder_closes_hot (heating side: for every non-increasing load profile and every ladder that ENDS with a utility "
-        "whose supply and target levels are at least as hot as every row - what the default hot utility is - the duties add up "
-        "to Qh within tol: a covering utility takes exactly what is left, by induction over the ladder). The unconditional closure "
-        "clause (duties always sum to Qh / Qc; defaults added when needed; cooling side) is NOT a theorem: it is false of the code in one recorded way "
+        "covering_ladder_closes_hot / covering_ladder_closes_cold (for every monotone load profile and every ladder that ENDS "
+        "with a utility whose supply and target levels lie beyond every row of the segment - what the default utilities are - "
+        "the duties add up to Qh (Qc) within tol: a covering utility takes exactly what is left, by induction over the ladder). "
+        "The unconditional closure clause (the service always ends the ladder with such a default when one is needed) is NOT a "
+        "theorem: it is false of the code in one recorded way "
         "(known finding C03-cold-sufficiency-sign, pinned by 6 e2e workbooks) and is decided by the oracle on every zone of 300+ "
         "random problems x utility sets per run (defaults only, ladders inside/outside the range, too-warm cold / too-cold hot "
         "utilities), which also checks the per-utility total-process sums and reachability.",
